@@ -622,5 +622,66 @@ theorem trimLeftFuel_length : ∀ (fuel : Nat) (s : Bytes), (trimLeftFuel fuel s
     · exact Nat.le_refl _
     · exact Nat.le_trans (trimLeftFuel_length fuel _) (by simp)
 
+/-! ### the proxy retry loop -/
+
+theorem kVerifUp_ne : kXFF ≠ kVerifUp ∧ kXFP ≠ kVerifUp ∧ kXFH ≠ kVerifUp := by decide
+
+theorem hGet_filter_key (q : Bytes → Bool) (h : Header) (k : Bytes) :
+    hGet (h.filter (fun e => q e.1)) k = if q k then hGet h k else none := by
+  induction h with
+  | nil => simp [hGet]
+  | cons e rest ih =>
+    obtain ⟨ek, ev⟩ := e
+    by_cases hk : ek = k
+    · subst hk
+      cases hq : q ek
+      · simp [List.filter, hq, ih]
+      · simp [List.filter, hq, hGet]
+    · cases hq : q ek
+      · simp [List.filter, hq, ih, hGet, hk]
+      · simp [List.filter, hq, ih, hGet, hk]
+
+theorem hGet_copyHeader (h : Header) (k : Bytes) : hGet (copyHeader h) k = dropNil (hGet h k) := by
+  unfold copyHeader
+  rw [hGet_filter_key (carried h) h k]
+  unfold carried
+  cases hh : hGet h k with
+  | none => rfl
+  | some o =>
+    cases o with
+    | none => rfl
+    | some vs => cases vs <;> rfl
+
+theorem fwdOf_copyHeader (h : Header) :
+    fwdOf (copyHeader h) = ⟨dropNil (fwdOf h).xff, dropNil (fwdOf h).xfp, dropNil (fwdOf h).xfh⟩ := by
+  simp [fwdOf, hGet_copyHeader]
+
+theorem fwdOf_applyOps (ops : Ops) (h : Header) : fwdOf (applyOps ops h) = (match ops with
+    | .none => fwdOf h
+    | .setOther => fwdOf h
+    | .delXFH => { fwdOf h with xfh := none }) := by
+  cases ops
+  · rfl
+  · simp [applyOps, fwdOf, hGet_hPut, kVerifUp_ne.1, kVerifUp_ne.2.1, kVerifUp_ne.2.2]
+  · simp [applyOps, fwdOf, hGet_hDel, kXFF_ne_kXFH, kXFP_ne_kXFH]
+
+/-- every pass hands the transport the prepared headers with the operator's ops applied once —
+    provided that, without ops, nothing changed the header map since `prepareRequest` -/
+theorem fwdOf_attemptHeader (ops : Ops) (h cur : Header) (hc : ops = .none → cur = h) :
+    fwdOf (attemptHeader ops h cur) = opsFwd ops (fwdOf h) := by
+  cases ops
+  · simp [attemptHeader, hc rfl, opsFwd]
+  · simp [attemptHeader, fwdOf_applyOps, fwdOf_copyHeader, opsFwd]
+  · simp [attemptHeader, fwdOf_applyOps, fwdOf_copyHeader, opsFwd]
+
+theorem proxyLoop_eq (ops : Ops) (h : Header) : ∀ (fails : Nat) (cur : Header), (ops = .none → cur = h) →
+    proxyLoop ops h fails cur = List.replicate (fails + 1) (opsFwd ops (fwdOf h))
+  | 0, cur, hc => by simp [proxyLoop, fwdOf_attemptHeader ops h cur hc]
+  | fails + 1, cur, hc => by
+    have hc' : ops = .none → attemptHeader ops h cur = h := by
+      intro ho; subst ho; simp [attemptHeader, hc rfl]
+    rw [proxyLoop, fwdOf_attemptHeader ops h cur hc, proxyLoop_eq ops h fails _ hc']
+    simp [List.replicate_succ]
+
 end
 end CaddyModel.C10
